@@ -58,4 +58,5 @@ S61 C17 quick polyexp_h0$
 S62 C04 quick itinit_r14$
 S63 C11 quick glue_isValidVertex$
 S64 C10 quick anydest_r1$
+S65 C07 quick flags$
 T
